@@ -25,6 +25,7 @@ import (
 	"os"
 	"os/exec"
 	"path/filepath"
+	"runtime/debug"
 	"sort"
 	"strings"
 	"sync"
@@ -35,6 +36,7 @@ import (
 
 	"github.com/benoitkugler/webrender/html/layout"
 	"github.com/benoitkugler/webrender/html/tree"
+	"github.com/benoitkugler/webrender/text"
 )
 
 // ------------------------------------------------------------------ child protocol
@@ -64,7 +66,7 @@ func childMain(in, out string) {
 	for _, p := range job.Plan {
 		r := Rendered{Doc: p[0]}
 		for k := 0; k < p[1]; k++ {
-			t := renderTrace(job.Docs[p[0]], render.NewFonts(job.Docs[p[0]].Engine))
+			t := renderTrace(job.Docs[p[0]], fontsFor(job.Docs[p[0]]))
 			d := t.Digest()
 			if k == 0 {
 				r.First = t
@@ -133,6 +135,16 @@ func runJobs(jobs []Job, dir, tag string, par int) [][]Rendered {
 	return out
 }
 
+// fontsFor: a fresh font configuration per render (none for a table probe)
+func fontsFor(d Doc) text.FontConfiguration {
+	if d.Probe != "" {
+		return nil
+	}
+	return render.NewFonts(d.Engine)
+}
+
+func debugStack() []byte { return debug.Stack() }
+
 func tail(s string, n int) string {
 	if len(s) > n {
 		return s[len(s)-n:]
@@ -159,11 +171,29 @@ func loadCorpus() []Doc {
 	return out
 }
 
+// makeDocs: corpus first, then n generated documents interleaved with the
+// table probes (so that fresh-process chunks mix both kinds: a probe before a
+// document = that table was used before the render)
 func makeDocs(n int) []Doc {
 	docs := loadCorpus()
 	rng := vlib.NewRng(vlib.Seed())
-	for i := 0; len(docs) < n; i++ {
-		docs = append(docs, genDoc(rng.Fork(), i))
+	var gen []Doc
+	for i := 0; len(docs)+len(gen) < n; i++ {
+		gen = append(gen, genDoc(rng.Fork(), i))
+	}
+	probes := probeDocs()
+	// probes in a seed-dependent order
+	for i := len(probes) - 1; i > 0; i-- {
+		j := rng.Intn(i + 1)
+		probes[i], probes[j] = probes[j], probes[i]
+	}
+	for i := 0; i < len(gen) || i < len(probes); i++ {
+		if i < len(gen) {
+			docs = append(docs, gen[i])
+		}
+		if i < len(probes) {
+			docs = append(docs, probes[i])
+		}
 	}
 	return docs
 }
@@ -234,7 +264,7 @@ func renderBatch(docs []Doc) []Trace {
 		wg.Add(1)
 		go func(i int) {
 			defer wg.Done()
-			fonts := render.NewFonts(docs[i].Engine)
+			fonts := fontsFor(docs[i])
 			<-start
 			out[i] = renderTrace(docs[i], fonts)
 		}(i)
@@ -413,7 +443,8 @@ func main() {
 	n := flag.Int("n", 60, "number of documents")
 	child := flag.String("child", "", "(internal) job file")
 	childOut := flag.String("childout", "", "(internal) result file")
-	mode := flag.String("mode", "full", "full | race (concurrent batches only, for the -race binary)")
+	mode := flag.String("mode", "full", "full | race (concurrent batches only, for the -race binary) | one (render document -doc once, print status and trace size) | dump (print the documents as JSON)")
+	docName := flag.String("doc", "", "one mode: document name")
 	rounds := flag.Int("rounds", 1, "race mode: how many times every batch is rendered")
 	flag.Parse()
 
@@ -424,27 +455,89 @@ func main() {
 	docs := makeDocs(*n)
 	nd := len(docs)
 
+	if *mode == "dump" {
+		b, _ := json.MarshalIndent(docs, "", " ")
+		os.Stdout.Write(b)
+		return
+	}
+	if *mode == "one" {
+		for _, d := range docs {
+			if d.Name == *docName {
+				t := renderTrace(d, fontsFor(d))
+				fmt.Println(d.Name, t.Status, t.Msg, "pages", t.Pages, "events", len(t.Events))
+				if t.Status == "panic" {
+					func() {
+						defer func() { fmt.Println(recover()); os.Stdout.Write(debugStack()) }()
+						if d.Probe != "" {
+							probeRaw(d)
+						} else if rd, err := renderDoc(d, fontsFor(d)); err == nil {
+							render.Draw(rd, 1)
+						}
+					}()
+				}
+			}
+		}
+		return
+	}
 	if *mode == "race" {
 		// N=8 distinct documents at a time, each goroutine its own fonts
 		// first, while every lazily filled cache is still cold: each corpus
 		// document rendered by all goroutines at once (first use of the
 		// hyphenation dictionaries, shared stylesheets, ...)
-		for _, d := range loadCorpus() {
-			same := make([]Doc, batchN)
+		sameBatch := func(d Doc, k int) {
+			same := make([]Doc, k)
 			for i := range same {
 				same[i] = d
 			}
 			renderBatch(same)
 		}
-		for r := 0; r < *rounds; r++ {
-			for i := 0; i < nd; i += batchN {
-				j := i + batchN
-				if j > nd {
-					j = nd
-				}
-				renderBatch(docs[i:j])
+		tr0 := time.Now()
+		lap := func(what string) {
+			fmt.Printf("race-mode: %s %v\n", what, time.Since(tr0).Round(time.Millisecond))
+			tr0 = time.Now()
+		}
+		for _, d := range loadCorpus() {
+			sameBatch(d, batchN)
+		}
+		lap("corpus x8")
+		// every table probe by all goroutines at once (first use of each
+		// hyphenation dictionary, of the counter styles ...)
+		for _, d := range docs {
+			if d.Probe != "" {
+				sameBatch(d, 4)
 			}
 		}
+		lap("probes x4")
+		// batches of 8 distinct documents; the documents that use the same parsed
+		// user stylesheet are neighbours, so that they meet in a batch (the sheet
+		// is the one object two such renders share besides the UA sheets and
+		// the package-level tables)
+		real := make([]Doc, 0, nd)
+		for _, d := range docs {
+			if d.Probe == "" {
+				real = append(real, d)
+			}
+		}
+		sort.SliceStable(real, func(a, b int) bool {
+			ka, kb := "", ""
+			if len(real[a].CSS) > 0 {
+				ka = real[a].CSS[0]
+			}
+			if len(real[b].CSS) > 0 {
+				kb = real[b].CSS[0]
+			}
+			return ka < kb
+		})
+		for r := 0; r < *rounds; r++ {
+			for i := 0; i < len(real); i += batchN {
+				j := i + batchN
+				if j > len(real) {
+					j = len(real)
+				}
+				renderBatch(real[i:j])
+			}
+		}
+		lap("batches of distinct documents")
 		fmt.Printf("race-mode: rendered %d documents in batches of %d, %d round(s)\n", nd, batchN, *rounds)
 		return
 	}
@@ -462,9 +555,10 @@ func main() {
 			if j > len(order) {
 				j = len(order)
 			}
-			job := Job{Docs: docs}
+			job := Job{Docs: make([]Doc, len(docs))}
 			for _, d := range order[i:j] {
 				job.Plan = append(job.Plan, [2]int{d, 1})
+				job.Docs[d] = docs[d]
 			}
 			jobs = append(jobs, job)
 		}
@@ -478,36 +572,44 @@ func main() {
 	}
 	per := (nd + par - 1) / par
 	// set 1: chunks in document order, every document 5 times in a row
+	// then every document of the chunk ONCE MORE, after all the others
 	set1 := chunk(fwd, per)
 	for i := range set1 {
-		for j := range set1[i].Plan {
+		first := len(set1[i].Plan)
+		for j := 0; j < first; j++ {
 			set1[i].Plan[j][1] = 5
+		}
+		for j := 0; j < first; j++ {
+			set1[i].Plan = append(set1[i].Plan, [2]int{set1[i].Plan[j][0], 1})
 		}
 	}
 	// set 2: reversed order, other chunk boundaries: other predecessors
 	set2 := chunk(rev, per+1)
 	// set 3: documents alone in a fresh process
-	nAlone := nd
-	if nAlone > 24 {
-		nAlone = 24
-	}
-	set3 := chunk(fwd[:nAlone], 1)
+	set3 := chunk(fwd, 1)
 
 	all := append(append(append([]Job{}, set1...), set2...), set3...)
 	t0 := time.Now()
 	res := runJobs(all, workDir, "p", par)
 	fmt.Printf("fresh processes: %d jobs in %v\n", len(all), time.Since(t0))
 	t0 = time.Now()
-	byDoc := func(rs [][]Rendered) map[int]Rendered {
+	// occurrence 0 / 1 of a document in the plans of a set
+	byDocN := func(rs [][]Rendered, occ int) map[int]Rendered {
 		m := map[int]Rendered{}
 		for _, l := range rs {
+			seen := map[int]int{}
 			for _, r := range l {
-				m[r.Doc] = r
+				if seen[r.Doc] == occ {
+					m[r.Doc] = r
+				}
+				seen[r.Doc]++
 			}
 		}
 		return m
 	}
+	byDoc := func(rs [][]Rendered) map[int]Rendered { return byDocN(rs, 0) }
 	r1 := byDoc(res[:len(set1)])
+	r1again := byDocN(res[:len(set1)], 1)
 	r2 := byDoc(res[len(set1) : len(set1)+len(set2)])
 	r3 := byDoc(res[len(set1)+len(set2):])
 
@@ -526,9 +628,7 @@ func main() {
 	// and sequentially in this process, after all of the above (history)
 	seq := make([]Trace, nd)
 	for i := range docs {
-		if i%3 == 0 { // a third is enough here: every document is already rendered sequentially in sets 1-3
-			seq[i] = renderTrace(docs[i], render.NewFonts(docs[i].Engine))
-		}
+		seq[i] = renderTrace(docs[i], fontsFor(docs[i]))
 	}
 
 	fmt.Printf("sequential tail: %v\n", time.Since(t0))
@@ -540,7 +640,14 @@ func main() {
 		if a.Other != nil {
 			diff = firstDiff(a.First, *a.Other)
 		}
-		w.Add(sameCase(0, "k=5 renders in one process", d, a.First, refD, a.Digests[1:], diff))
+		rep := append([][5]uint64{}, a.Digests[1:]...)
+		if ag, ok := r1again[i]; ok {
+			rep = append(rep, ag.Digests[0])
+			if diff == "" {
+				diff = firstDiff(a.First, ag.First)
+			}
+		}
+		w.Add(sameCase(0, "k=5 renders in a row, then once more after the other documents of the chunk, in one process", d, a.First, refD, rep, diff))
 		// kind 1: fresh processes
 		b := r2[i]
 		w.Add(sameCase(1, "first render of two fresh processes (different predecessors)", d, a.First, refD,
@@ -552,13 +659,19 @@ func main() {
 			if df == "" {
 				df = firstDiff(c.First, b.First)
 			}
+			if ag, ok := r1again[i]; ok {
+				runs = append(runs, ag.Digests[0])
+				if df == "" {
+					df = firstDiff(c.First, ag.First)
+				}
+			}
 			if seq[i].Status != "" {
 				runs = append(runs, seq[i].Digest())
 				if df == "" {
 					df = firstDiff(c.First, seq[i])
 				}
 			}
-			w.Add(sameCase(3, "alone in a fresh process vs after other documents (two processes, end of this process)", d, c.First, c.Digests[0], runs, df))
+			w.Add(sameCase(3, "alone in a fresh process vs after other documents (first and second time in another process, first time in a third one, at the end of the harness process)", d, c.First, c.Digests[0], runs, df))
 		} else if seq[i].Status != "" {
 			w.Add(sameCase(3, "first render of a fresh process vs at the end of the harness process", d, a.First, refD,
 				[][5]uint64{seq[i].Digest()}, firstDiff(a.First, seq[i])))
